@@ -386,8 +386,8 @@ Lemma deliver_unblinded : forall c e evs sp, sp_blinded sp = false ->
 Proof. intros c e evs sp H; unfold deliver_phase; rewrite H; reflexivity. Qed.
 
 (* the relays' calls as the result lists them *)
-Definition calls_of (req : ureq) (w : option N) (plans : list (list call)) : list (list (N * ureq)) :=
-  map (fun cs => map (fun k => (k_start k, req)) (cut w cs)) plans.
+Definition calls_of (rf : N -> ureq) (w : option N) (plans : list (list call)) : list (list (N * ureq)) :=
+  map (fun cs => map (fun k => (k_start k, rf (k_start k))) (cut w cs)) plans.
 
 (* the unblinding part of deliver_phase as one case analysis *)
 Inductive deliver_course (c : config) (e : env) (evs : list event) (sp : sproposal) : result -> Prop :=
@@ -403,7 +403,7 @@ Inductive deliver_course (c : config) (e : env) (evs : list event) (sp : spropos
     let plans := plans_from (e_deadline e) (candidates c w a) 0 (e_relays e) in
     let fd := first_delivery plans in
     o_panic res = false -> o_events res = evs ->
-    o_unblind res = calls_of (unblind_request sp) fd plans ->
+    o_unblind res = calls_of (request_at sp fd (e_deadline e)) fd plans ->
     (match fd with
      | Some t =>
          if t <? e_deadline e then
@@ -442,12 +442,12 @@ Proof.
 Qed.
 
 (* a listed call of relay i is a call of that relay's plan *)
-Lemma calls_of_nth : forall req w plans i calls k st rq,
-  nth_error (calls_of req w plans) i = Some calls -> nth_error calls k = Some (st, rq) ->
-  rq = req /\ exists cs cl, nth_error plans i = Some cs /\ nth_error (cut w cs) k = Some cl /\ k_start cl = st
+Lemma calls_of_nth : forall rf w plans i calls k st rq,
+  nth_error (calls_of rf w plans) i = Some calls -> nth_error calls k = Some (st, rq) ->
+  rq = rf st /\ exists cs cl, nth_error plans i = Some cs /\ nth_error (cut w cs) k = Some cl /\ k_start cl = st
      /\ length calls = length (cut w cs).
 Proof.
-  intros req w plans i calls k st rq H Hk. unfold calls_of in H. rewrite nth_error_map in H.
+  intros rf w plans i calls k st rq H Hk. unfold calls_of in H. rewrite nth_error_map in H.
   destruct (nth_error plans i) as [cs|] eqn:Hp; cbn in H; [|discriminate]. injection H as <-.
   rewrite nth_error_map in Hk. destruct (nth_error (cut w cs) k) as [cl|] eqn:Hc; cbn in Hk; [|discriminate].
   injection Hk as <- <-. split; [reflexivity|]. exists cs, cl. rewrite map_length. auto.
@@ -457,18 +457,26 @@ Qed.
 Lemma deliver_call : forall c e evs sp i calls k st rq,
   nth_error (o_unblind (deliver_phase c e evs sp)) i = Some calls ->
   nth_error calls k = Some (st, rq) ->
-  sp_blinded sp = true /\ rq = unblind_request sp /\ (length calls <= 3)%nat
+  sp_blinded sp = true
+  /\ (rq = unblind_request sp
+      \/ (rq = late_request sp /\ exists t sp', o_submit (deliver_phase c e evs sp) = Some (t, sp') /\ t < st))
+  /\ (length calls <= 3)%nat
   /\ exists w a rl cl,
        auction_results e = Some (w, a) /\ In i (candidates c w a)
        /\ nth_error (e_relays e) i = Some rl /\ r_can rl = true
        /\ nth_error (free_calls (e_deadline e) relay_tries 0 (r_script rl)) k = Some cl /\ k_start cl = st.
 Proof.
   intros c e evs sp i calls k st rq H Hk.
-  destruct (deliver_phase_course c e evs sp) as [Hb|Hb _|w a res Hb Ha Hc plans fd _ _ Hu _].
+  destruct (deliver_phase_course c e evs sp) as [Hb|Hb _|w a res Hb Ha Hc plans fd _ _ Hu Hsub].
   - cbn [o_unblind] in H. apply no_calls_nth in H; subst; destruct k; discriminate.
   - cbn [o_unblind stop] in H. apply no_calls_nth in H; subst; destruct k; discriminate.
   - rewrite Hu in H. destruct (calls_of_nth _ _ _ _ _ _ _ _ H Hk) as (-> & cs & cl & Hp & Hcut & Hst & Hlen).
-    split; [exact Hb|]. split; [reflexivity|].
+    split; [exact Hb|]. split.
+    { unfold request_at. destruct fd as [t|]; [|left; reflexivity].
+      destruct (full_container (sp_version sp)) as [fc|]; [|left; reflexivity].
+      destruct (t <? e_deadline e) eqn:Hdl; cbn [andb]; [|left; reflexivity].
+      destruct (t <? st) eqn:Hlate; [|left; reflexivity].
+      right. split; [reflexivity|]. destruct Hsub as (_ & Hsub). eexists t, _. split; [exact Hsub|lia]. }
     unfold plans in Hp. apply plans_from_nth in Hp as (rl & Hrl & ->). cbn [Nat.add] in *.
     pose proof (cut_prefix _ _ _ _ Hcut) as Hfree.
     destruct (relay_plan_nonempty _ _ _ _ _ _ Hfree) as (Hin & Hcan & Heq).
@@ -515,13 +523,16 @@ Proof.
       pose proof (free_calls_order _ _ _ _ _ _ _ _ Hn Hk Hj') as Hord.
       pose proof (finish_ge_start (e_deadline e) (k_start cl) (fst (script_nth (r_script rl) k)) (k_out cl)).
       apply N.ltb_lt. lia. }
-    exists j, rl, (map (fun k0 => (k_start k0, unblind_request sp)) (cut (Some t0) (relay_plan (e_deadline e) (candidates c w a) j rl))), k, (k_start cl), fc.
+    exists j, rl, (map (fun k0 => (k_start k0, request_at sp (Some t0) (e_deadline e) (k_start k0))) (cut (Some t0) (relay_plan (e_deadline e) (candidates c w a) j rl))), k, (k_start cl), fc.
     repeat split; auto.
     + rewrite Hu. unfold calls_of. rewrite nth_error_map.
       assert (Hpl : nth_error plans j = Some (relay_plan (e_deadline e) (candidates c w a) j rl)).
       { unfold plans. apply (plans_from_nth_some _ _ _ 0%nat j rl Hrl). }
       fold fd in Hpl. rewrite <- Hfd. unfold fd. rewrite Hpl. reflexivity.
-    + rewrite nth_error_map, Hcut. reflexivity.
+    + rewrite nth_error_map, Hcut. cbn [option_map]. f_equal. f_equal.
+      unfold request_at. rewrite Hfc.
+      pose proof (finish_ge_start (e_deadline e) (k_start cl) (fst (script_nth (r_script rl) k)) (k_out cl)).
+      assert (Hnl : (t0 <? k_start cl) = false) by lia. rewrite Hnl, andb_false_r. reflexivity.
     + rewrite <- Hout. exact Hok.
     + rewrite <- Hfin, Hfinish. rewrite Hout in *. unfold finish_of.
       destruct (snd (script_nth (r_script rl) k)); try discriminate; reflexivity.
@@ -885,7 +896,9 @@ Lemma unblind_requests : forall c e d i calls k st rq,
     d_account d = Some acct /\ e_proposal e = POk pr /\ p_blinded pr = true
     /\ p_block pr = Some h /\ h_slot h = d_slot d /\ e_sig_block e = Some sig
     /\ signed_container (p_version pr) true = Some code
-    /\ rq = unblind_request (signed_proposal pr h sig code)
+    /\ (rq = unblind_request (signed_proposal pr h sig code)
+        \/ (rq = late_request (signed_proposal pr h sig code)
+            /\ exists t sp', o_submit (propose c e d) = Some (t, sp') /\ t < st))
     /\ In (sign_block_event c d acct h) (o_events (propose c e d))
     /\ e_auction e = AOk w a /\ In i (candidates c w a)
     /\ nth_error (e_relays e) i = Some rl /\ r_can rl = true
@@ -896,7 +909,7 @@ Proof.
   2:{ rewrite (propose_unsigned _ _ _ _ Hsp) in Hc. apply stop_unblind_nth in Hc; subst; destruct k; discriminate. }
   destruct (propose_signed _ _ _ _ _ _ Hsp) as (Heq & acct & h & sig & code & _ & Ha & (Hp'&_&Hb&Hsl&_) & _ & Hsig & Hcode & -> & ->).
   rewrite Heq in *.
-  destruct (deliver_call _ _ _ _ _ _ _ _ _ Hc Hk) as (Hbl & -> & Hlen & w & a & rl & cl & Hau & Hin & Hrl & Hcan & _).
+  destruct (deliver_call _ _ _ _ _ _ _ _ _ Hc Hk) as (Hbl & Hrq & Hlen & w & a & rl & cl & Hau & Hin & Hrl & Hcan & _).
   cbn [sp_blinded signed_proposal] in Hbl. rewrite Hbl in Hcode.
   exists acct, p, h, sig, code, w, a, rl. rewrite deliver_events. repeat split; auto.
   - apply in_snoc; right; reflexivity.
